@@ -369,17 +369,21 @@ func randomDeclProg(r *proto.Rand, malformed bool) *declProg {
 	return p
 }
 
-// ---- finding dup-name-loop-report: what the loop detection can answer -------------------------
+// ---- finding dup-name-loop-report (cured by 89d8011): what the loop detection could answer ------
 //
 // Before sorting, the compiler looks for initialisation loops: from every constant, then every
 // variable, then every type it walks the dependency lists; the list of the declaration a walk
 // starts from is looked up by identifier, that of every *use* met on the way by name, with
-// depsOf: a range over the map that returns the list of the first key with that name. When a
-// name is declared twice (not valid Go: the type checker would say so afterwards) there are two
-// such keys and the walk continues in whichever the map enumeration gives first — a fresh choice
-// at every call. loopOutcomes runs that walk over every sequence of choices and returns the set
-// of answers (which loop is reported, or none). More than one answer = the class predicts that
-// the build error differs from build to build. It is computed from the package alone.
+// depsOf. Before fix 89d8011 that was a range over the map that returned the list of the first
+// key met with that name: when a name is declared twice (not valid Go: the type checker would say
+// so afterwards) there are two such keys and the walk continued in whichever the map enumeration
+// gave first — a fresh choice at every call. (Since the fix depsOf takes the declaration that
+// comes first in the source.) loopOutcomes runs the walk of the first-key-met search over every
+// sequence of choices and returns the set of answers (which loop is reported, or none). More
+// than one answer = the package is one on which such a search makes the build error differ from
+// build to build: while the finding is listed and its recorded package still fails, the class
+// predicts it; otherwise these packages are the ones built 600 times to see one answer. It is
+// computed from the package alone.
 
 type loopSim struct {
 	p       *declProg
@@ -647,15 +651,22 @@ func declStream(c *hx.Ctx, dupActive bool, report func(in *input, a, b digest, w
 		same := true
 		norun := *in
 		norun.Run = false
-		// finding dup-name-loop-report: predicted from the package alone
-		predictsDup := dupActive && !p.valid && len(p.loopOutcomes()) > 1
+		// finding dup-name-loop-report (cured by 89d8011: depsOf takes the first declaration in the
+		// source): predicted from the package alone. The packages on which a first-key-met search
+		// by name would have more than one answer are built 600 times whether or not the finding is
+		// listed: when it is not (class inactive) a second answer is a violation.
+		multi := !p.valid && len(p.loopOutcomes()) > 1
+		predictsDup := dupActive && multi
 		builds := repeat
 		if c.Quick() && strings.HasPrefix(p.what, "matrix") {
 			builds = repeat / 2 // each defect of the ordering shows at dozens of points of the matrix
 		}
+		if multi {
+			builds = 600 // one choice in eight, two or three choices deep: rare answers
+			res.Hist("decl-order a name declared twice on the path of the loop detection: 600 builds")
+		}
 		if predictsDup {
 			predicted++
-			builds = 600 // one choice in eight, two or three choices deep: rare answers
 		}
 		for i := 1; i < builds; i++ {
 			d := buildOnce(&norun)
